@@ -35,6 +35,10 @@ var pool = []arg{
 	// ash by -100, dpb with (byte -1 0) and format ~F of 0.0 were not reachable from the pool)
 	{"mid-fix", "300000000"}, {"neg-hundred", "-100"}, {"byte-spec", "(byte 2 1)"}, {"neg-byte-spec", "(byte -1 0)"},
 	{"huge-byte-spec", "(byte 4611686018427387904 0)"}, {"zero-double", "0.0d0"}, {"one-digit-float", "0.001"},
+	// objects whose Go type is a slice or a map outside the root package's list / octets (stream types of pkg/cl) and
+	// condition objects, one with a slot holding what no system-made condition holds (added after seeded changes C09-7, C09-9)
+	{"broadcast-stream", "(make-broadcast-stream)"}, {"concatenated-stream", "(make-concatenated-stream)"},
+	{"condition", "(make-condition 'error :message \"boo\")"}, {"condition-odd-stack", "(make-condition 'error :message \"boo\" :stack 5)"},
 }
 
 // the objects of the exhaustive 3-tuple grid (every function x core^3)
@@ -221,6 +225,18 @@ func Run(ctx *common.Ctx) {
 		keys = append(keys, []string{e[0]})
 		ctx.Hist("extra-call-site")
 	}
+	// systematic blocks: every pool object as a hash key through every entry point; condition objects with every kind
+	// of slot value raised every way; the stream readers with every lexeme opening around a block boundary
+	{
+		sg, sk, sn := systematicGroups(mk)
+		for i := range sg {
+			groups = append(groups, sg[i])
+			keys = append(keys, sk[i])
+			for range sg[i] {
+				ctx.Hist("systematic:" + sn[i])
+			}
+		}
+	}
 	// deep evaluation, with and without tracing (the trace hooks replace the catch-all hooks; added after seeded
 	// change C09-6 was missed): nested calls and recursion at depths around the hooks' indentation limits
 	for _, tr := range []bool{false, true} {
@@ -263,7 +279,9 @@ func Run(ctx *common.Ctx) {
 		nrand = 3000000
 	}
 	rg := []job{{Kind: "read-sweep", Src: "short", Deadline: 300}, {Kind: "read-sweep", Src: "triples", Deadline: 300}, {Kind: "read-sweep", Src: "quads", Deadline: 600},
-		{Kind: "read-sweep", Src: "templates", Deadline: 300}}
+		{Kind: "read-sweep", Src: "templates", Deadline: 300},
+		{Kind: "read-sweep", Src: "stream-cuts", Seed: 0, Deadline: 600}, {Kind: "read-sweep", Src: "stream-cuts", Seed: 1, Deadline: 600},
+		{Kind: "read-sweep", Src: "stream-pairs", Deadline: 300}}
 	for i := 0; i < 12; i++ {
 		rg = append(rg, job{Kind: "read-sweep", Src: "random", Seed: ctx.Seed*1000 + uint64(i), Count: nrand / 12, Deadline: 600})
 	}
@@ -383,17 +401,30 @@ func Run(ctx *common.Ctx) {
 			}
 		}
 	}
+	fixed := fixedIDs()
 	for _, c := range confirmed {
 		id := findingID(c)
 		if _, ok := known[id]; ok {
 			known[id] = true
 			ctx.Hist("known-fault-reproduced")
+			if fixed[id] && !seen[id] {
+				// the call site was repaired: this is a new fault there (or the old one back), reported with the input met
+				// in this run, not only as the stored witness of the repaired one
+				seen[id] = true
+				ctx.Violate("an internal fault of the host is reachable again at a call site that was repaired",
+					c.Src, fmt.Sprintf("[%s] %s", c.Class, c.Msg), "a value or a Lisp condition; finding id "+id+" (fixed)")
+			}
 			continue
 		}
 		if strings.Contains(id, "/3+:") {
 			if kid, ok := knownFnSig[strings.Replace(id, "/3+", "", 1)]; ok {
 				known[kid] = true
 				ctx.Hist("known-fault-reproduced")
+				if fixed[kid] && !seen[kid] {
+					seen[kid] = true
+					ctx.Violate("an internal fault of the host is reachable again at a call site that was repaired",
+						c.Src, fmt.Sprintf("[%s] %s", c.Class, c.Msg), "a value or a Lisp condition; finding id "+kid+" (fixed)")
+				}
 				continue
 			}
 		}
@@ -423,6 +454,7 @@ func Run(ctx *common.Ctx) {
 	}
 	// (D) the modelled part of format, compared with the Coq model in every case
 	writeTables(ctx)
+	writeReaderTables(ctx)
 	nD := 1500
 	if ctx.Thorough() {
 		nD = 20000
@@ -482,4 +514,30 @@ func findingID(c candidate) string {
 		return "C09-reader"
 	}
 	return "C09-fn:" + c.Key + ":" + strings.ReplaceAll(c.Fault, " ", "-")
+}
+
+// fixedIDs: the ids of the findings recorded as fixed (the --known file; the framework hands the harness the
+// witnesses only).
+func fixedIDs() map[string]bool {
+	out := map[string]bool{}
+	for i, a := range os.Args {
+		if a == "--known" && i+1 < len(os.Args) {
+			if data, err := os.ReadFile(os.Args[i+1]); err == nil {
+				var kf struct {
+					Findings []struct {
+						ID     string `json:"id"`
+						Status string `json:"status"`
+					} `json:"findings"`
+				}
+				if json.Unmarshal(data, &kf) == nil {
+					for _, f := range kf.Findings {
+						if f.Status == "fixed" {
+							out[f.ID] = true
+						}
+					}
+				}
+			}
+		}
+	}
+	return out
 }
